@@ -475,7 +475,12 @@ def job_sched_dfs(j):
             if j.get("faults") == "pairs" and len(ids) >= 2:
                 plans.append(rng.sample(ids, 2))
         for faults in plans:
-            runs, complete = explore(col, sp, d, plain, {"kind": "call"}, faults, j.get("limit", 300))
+            op = {"kind": "call"}
+            if j.get("selections") and not faults and rng.random() < 0.5:
+                op = pick_op(rng, sp, ids, True)  # every completion order of an executor restricted by root / exclude / target nodes
+                if op.get("kind") == "executor":
+                    col.counters["dfs_shapes_run_through_an_executor_selection"] += 1
+            runs, complete = explore(col, sp, d, plain, op, faults, j.get("limit", 300))
             nshapes += 1
             ncomplete += bool(complete)
             col.counters["dfs_runs"] += runs
@@ -558,6 +563,70 @@ def job_w3(j):
                     "executions_monitored": res["stats"].get("generic_executions", 0)})
     finally:
         shutil.rmtree(tmp, ignore_errors=True)
+    return col.result()
+
+
+@job("scale")
+def job_scale(j):
+    """Large DAGs (long chains, wide fans, layered grids; hundreds of nodes): every call terminates within 10N+20 scheduler
+    iterations, runs every node once and respects the dependencies (spec-free monitor).  Free-running, both flavours."""
+    rng = random.Random(j["seed"])
+    col = Collector()
+    for k in range(j.get("n_cases", 3)):
+        kind = rng.choice(["chain", "fan", "grid", "binary"])
+        n = rng.randint(j.get("nmin", 200), j.get("nmax", 600))
+        fns = {"g%d" % q: dict(priority=rng.choice([0, 1, 2]), is_sequential=False, resource=rng.choice(["thread", "thread", "async-thread", "main-thread"]))
+               for q in range(4)}
+        nodes = []
+        for i in range(n):
+            if kind == "chain":
+                deps = [i - 1] if i else []
+            elif kind == "fan":
+                deps = [0] if i else []
+            elif kind == "grid":
+                w = 20
+                deps = [i - w] if i >= w else []
+                if i >= w and i % w:
+                    deps.append(i - w - 1)
+            else:
+                deps = [(i - 1) // 2] if i else []
+            nodes.append({"fn": "g%d" % rng.randrange(4), "args": [["n", q, []] for q in deps] + ([["p", "x"]] if not deps else []), "kwargs": {}, "active": None})
+        sinks = set(range(n)) - {a[1] for nd in nodes for a in nd["args"] if a[0] == "n"}
+        sp = {"name": "big", "params": ["x"], "defaults": {}, "fns": fns, "nodes": nodes,
+              "ret": ["tuple", [["n", i, []] for i in sorted(sinks)[:50]]], "mc": rng.randint(1, 8), "is_async": rng.random() < 0.3}
+        d, _env, plain = S.build_tawazi(sp)
+        ids = S.node_ids(sp)
+        B.reset_log()
+        probes.reset_counts()
+        B.Settings.controlled = False
+        B.Settings.step_limit = 10 * len(d.exec_nodes) + 20
+        try:
+            res = probes.run_op("call", lambda: sched.call_dag(d, {"kind": "call"}, [Sym("arg", k)]))
+        finally:
+            B.Settings.step_limit = 0
+        log = B.snapshot()
+        col.evaluations += 1
+        col.counters["scale_cases_%s" % kind] += 1
+        col.counters["scale_nodes"] += n
+        col.hashes.add(S.spec_hash({"k": kind, "n": n, "mc": sp["mc"], "a": sp["is_async"], "seed": j["seed"], "i": k}))
+        rp = {"kind": "rerun_job", "job": dict(j, n_cases=k + 1), "shape": kind, "nodes": n, "mc": sp["mc"], "is_async": sp["is_async"]}
+        col.generic(log, rp)
+        if res[0] != "ok":
+            col.violation("C09", "large_dag_call_raised", dict(shape=kind, nodes=n, exc=repr(res[1])[:300]), rp)
+            continue
+        ent = Counter(e["node"] for e in log if e["kind"] == "FENTER")
+        bad = [x for x in ids if ent.get(x, 0) != 1]
+        if bad:
+            col.violation("C09", "returned_normally_while_selected_active_node_has_not_run", dict(shape=kind, nodes=n, not_exactly_once=bad[:10]), rp)
+        ref = S.run_reference(sp, [Sym("arg", k)], plain)
+        if ref[0] == "ok":
+            from .sym import same, short
+
+            if not same(ref[1].result, res[1]):
+                col.violation("C09", "large_dag_returned_wrong_value", dict(shape=kind, nodes=n, got=short(res[1], 200)), rp)
+        if k == 0:
+            col.sample(dict(shape=kind, nodes=n, max_concurrency=sp["mc"], is_async=sp["is_async"],
+                            scheduler_iterations=max([e.get("steps", 0) for e in log if e["kind"] == "STEPS"] or [0])))
     return col.result()
 
 
